@@ -45,6 +45,11 @@ package posix
 //@   at-return {C16} [the-bucket-attributes-are-removed-with-the-bucket] when ret0 == nil :: ensures called("meta.MetadataStorer.DeleteAttributes") \
 //@        && arg("meta.MetadataStorer.DeleteAttributes", 0) == bucket && arg("meta.MetadataStorer.DeleteAttributes", 1) == ""
 
+// ---- C01: the length HEAD reports is the length GET serves: the file's size, 0 for a directory object ----
+//@ func (*Posix) HeadObject
+//@   at-return {C01} [head-reports-the-length-get-serves] when err == nil && input.PartNumber == nil :: ensures ret0.ContentLength != nil \
+//@        && *ret0.ContentLength == size && (called("fs.FileInfo.IsDir") && result("fs.FileInfo.IsDir", 0) ==> size == 0)
+
 // ---- C10: retention overwrite rules ---------------------------------------------------
 // The retention attribute of an object version is (re)written only when none exists yet, or the
 // existing one is not COMPLIANCE and, if GOVERNANCE, the caller's bypass was granted. (The gateway
